@@ -17,6 +17,10 @@ type CleanCase struct {
 	Cwd       string            `json:"cwd,omitempty"`
 	PreRun    []string          `json:"pre_run,omitempty"` // tasks run before --clean (creates the cache, like an earlier simulated run)
 	RemoveErr int               `json:"remove_err"`        // the n-th removal fails with EACCES; -1 = none
+	// Spokfile: how the spokfile is named on the command line: "" (found from cwd), "abs" (--spokfile /abs/path),
+	// "rel" (--spokfile <path relative to cwd>, e.g. ./spokfile, ../spokfile or proj/spokfile from $HOME)
+	Spokfile string `json:"spokfile,omitempty"`
+	FromHome bool   `json:"from_home,omitempty"` // invoke from $HOME (the parent of the project); needs Spokfile != ""
 }
 
 type cleanScen struct{}
@@ -104,6 +108,22 @@ func (cleanScen) Gen(r *Rng, cfg GenConfig) any {
 		c.RemoveErr = r.Intn(3)
 	}
 	c.Prog.Layout = r.Intn(6)
+	if r.Chance(1, 4) {
+		c.Spokfile = Pick(r, []string{"abs", "rel", "rel"})
+		if c.Cwd == "" && r.Chance(1, 2) {
+			c.FromHome = true
+			// relative values (named outputs, join(".")) are only generated for invocations from the project root
+			for i := range c.Prog.Vars {
+				v := &c.Prog.Vars[i]
+				if v.Kind == "join" && v.Args[0] == "." {
+					v.Args[0] = "{PROJ}"
+				}
+				if v.Kind == "str" && !strings.HasPrefix(v.Args[0], "{PROJ}") && v.Args[0] != "" && v.Args[0] != "." && v.Args[0] != ".." {
+					v.Args[0] = "{PROJ}/" + v.Args[0]
+				}
+			}
+		}
+	}
 	return c
 }
 
@@ -130,6 +150,9 @@ func (cleanScen) Exec(w *World, cc any, prop string) *Result {
 		}
 	}
 	cwd := filepath.Join(proj, filepath.FromSlash(c.Cwd))
+	if c.FromHome && c.Spokfile != "" {
+		cwd = w.Home
+	}
 	inv := 0
 	if len(c.PreRun) > 0 {
 		obs := w.Invoke(Invocation{Args: append(append([]string{}, c.PreRun...), "--json"), Cwd: proj, Env: w.BaseEnv(), Inv: inv, Sched: Sched{Policy: "fifo"}, Faults: NoFaults()})
@@ -247,7 +270,20 @@ func (cleanScen) Exec(w *World, cc any, prop string) *Result {
 		f.RemoveErrPath = targets[c.RemoveErr%len(targets)]
 	}
 	protect := []string{filepath.Join(proj, "spokfile"), proj}
-	obs := w.Invoke(Invocation{Args: []string{"--clean"}, Cwd: cwd, Env: w.BaseEnv(), Inv: inv, Sched: Sched{Policy: "fifo"}, Faults: f, Protect: protect})
+	args := []string{"--clean"}
+	switch c.Spokfile {
+	case "abs":
+		args = append(args, "--spokfile", filepath.Join(proj, "spokfile"))
+	case "rel":
+		relp, err := filepath.Rel(cwd, filepath.Join(proj, "spokfile"))
+		must(err)
+		if !strings.Contains(relp, "/") && c.Prog.Layout%2 == 0 {
+			relp = "./" + relp
+		}
+		args = append(args, "--spokfile", relp)
+		res.count("probe:relative_spokfile_flag")
+	}
+	obs := w.Invoke(Invocation{Args: args, Cwd: cwd, Env: w.BaseEnv(), Inv: inv, Sched: Sched{Policy: "fifo"}, Faults: f, Protect: protect})
 	res.Ops++
 	post := Snap(w.Home)
 	created, removed, changed := pre.Diff(post)
@@ -274,7 +310,7 @@ func (cleanScen) Exec(w *World, cc any, prop string) *Result {
 		ks = append(ks, k)
 	}
 	sort.Strings(ks)
-	res.distinct(fmt.Sprintf("%v|clean%v|cwd%q|fault%v|failed%v", ks, hasClean, c.Cwd, faultFired, obs.Failed))
+	res.distinct(fmt.Sprintf("%v|clean%v|cwd%q|home%v|spokfile-%s|fault%v|failed%v", ks, hasClean, c.Cwd, c.FromHome, c.Spokfile, faultFired, obs.Failed))
 	sig := fmt.Sprintf("clean:%v", ks)
 
 	// ---- the protected set is never touched (detected before the deletion happens)
@@ -382,6 +418,9 @@ func (cleanScen) Shrinks(cc any) []any {
 	}
 	if c.Cwd != "" {
 		add(func(n *CleanCase) { n.Cwd = "" })
+	}
+	if c.Spokfile != "" {
+		add(func(n *CleanCase) { n.Spokfile = ""; n.FromHome = false })
 	}
 	for ti := range c.Prog.Tasks {
 		if len(c.Prog.Tasks) > 1 {
